@@ -14,7 +14,7 @@ ck = importlib.util.module_from_spec(_spec)
 _loader.exec_module(ck)
 
 SCENARIOS = {
-    "C17": ["blocking", "timeout", "contended", "in_runtime", "deadletters", "blocking_ask_vs_end", "blocking", "timeout", "contended", "blocking_ask_vs_end", "end_vs_observers", "erased_blocking"],
+    "C17": ["blocking", "timeout", "contended", "in_runtime", "deadletters", "blocking_ask_vs_end", "blocking", "timeout", "contended", "blocking_ask_vs_end", "end_vs_observers", "erased_blocking", "timed_independent"],
     "C01": ["async_mt"],
     "C03": ["ask_vs_end", "ask_vs_end", "async_mt", "end_vs_observers"],
     "C02": ["async_mt"],
@@ -181,7 +181,7 @@ def m_part(prop, tier, seed):
 
 def run(prop, tier, seed):
     t0 = time.time()
-    n = 99 if tier == "quick" else 2200
+    n = 104 if tier == "quick" else 2340
     res = run_batch("C17", SCENARIOS["C17"], n, seed)
     viol, stats = summarize("C17", res)
     wall = time.time() - t0
